@@ -152,6 +152,7 @@ func ReplayCtl(steps []CtlStep, seed int64, opt CtlOpts) (*CtlResult, error) {
 	if err != nil {
 		return nil, err
 	}
+	w.SameHost = seed%2 == 1 // every stream from one machine, as a host's own curl processes are
 	keys, variant := ConcreteKeys(rng)
 	c := &ctlRun{w: w, rng: rng, keys: keys, res: &CtlResult{Variant: variant}, ioReq: map[int]int{}}
 	var infra error
@@ -266,6 +267,25 @@ func (c *ctlRun) do(st CtlStep) error {
 		case a.O == "refused" && !told:
 			c.div("C01", "refusal-told", "attempt %d was refused but no notice for %s reached the operator channel", a.A, h.Addr)
 		}
+		if a.O != "silent" {
+			// C11: whatever became of it, a stream that reached a broker that is not shutting down left a record
+			dirWord := map[string]string{"in": string(iobroker.LVInput), "out": string(iobroker.LVOutput)}
+			n := 0
+			for _, r := range w.Log.Records() {
+				if r.Attrs["vtag"] != h.Tag {
+					continue
+				}
+				if d, ok := r.Attrs[iobroker.LKDirection]; ok && d != dirWord[h.Dir] {
+					continue
+				}
+				if r.Msg == iobroker.LMNewConnection || r.Level >= 8 {
+					n++
+				}
+			}
+			if n == 0 {
+				c.div("C11", "unrecorded-stream", "attempt %d (%s, specification: %s) went through admission without a connect or error record", a.A, h.Dir, a.O)
+			}
+		}
 		if real != "accepted" && !h.IO {
 			select {
 			case <-h.returned:
@@ -273,6 +293,9 @@ func (c *ctlRun) do(st CtlStep) error {
 				c.div("C01", "ended-at-once", "refused attempt %d did not return", a.A)
 			}
 		}
+	case "Hangup":
+		// the client goes away while its attempts wait for the broker's lock
+		c.half(a.A).Cancel()
 	case "ProxyEnd":
 		h := c.half(a.A)
 		if a.Why == "self" {
@@ -526,7 +549,7 @@ func (c *ctlRun) final(steps []CtlStep) {
 		var conn, disc, errs int
 		var errMsgs []string
 		for _, r := range recs {
-			if r.Attrs["vtag"] != h.Addr {
+			if r.Attrs["vtag"] != h.Tag {
 				continue
 			}
 			d, hasDir := r.Attrs[iobroker.LKDirection]
